@@ -30,6 +30,8 @@ func byteSliceArgMods(argIdx int) func(c *ssa.CallCommon, ms *modSet) {
 
 const u8comp = "E:uint8"
 
+func fileCompSort() string { return SArr(SInt, SArr(SIdx, SBV(8))) }
+
 func u8compSortF() string { return SArr(SInt, SArr(SIdx, SBV(8))) }
 
 func (fr *frame) byteAt(s *Val, i Term) Term {
@@ -339,25 +341,50 @@ func init() {
 	}
 
 	// io.ReaderAt / io.WriterAt
+	// ReadAt(p, off): n bytes of the abstract file FILE[reader] starting at off are copied to p[0:n); bytes of p from n on keep
+	// their previous content; 0 <= n <= len(p); n < len(p) implies err != nil.
 	readAt := func(fr *frame, c *ssa.CallCommon, args []*Val, rt types.Type, pos token.Pos) *Val {
 		ft := fr.ft
+		recv := args[0]
 		p := args[1]
-		if p.Rg != nil {
-			for _, k := range compsOf(p.Rg) {
-				ft.havocComp(fr.cur.mem, k)
-				fr.checkLoopMod(k)
-			}
-		} else {
-			all := ft.memGet(fr.cur.mem, u8comp, u8compSortF())
-			na := ft.c.Fresh("readbuf", SArr(SIdx, SBV(8)))
-			fr.cur.mem.m[u8comp] = ft.c.Define("m$"+u8comp, mkStore(all, p.sRef(), na))
-			fr.checkLoopMod(u8comp)
-			fr.frameCheck([]string{u8comp}, p.sRef(), "ReadAt", pos)
-		}
 		n := ft.c.Fresh("n", SIdx)
 		err := ft.freshVal("rerr", types.Universe.Lookup("error").Type())
 		ft.c.Assume(n, uLe(n, p.sLen()))
-		ft.c.Assume(n, mkImp(app(SBool, "bvult", n, p.sLen()), mkNot(mkEq(err.L[0], intConst(0)))))
+		ft.c.Assume(n, mkImp(app(SBool, "bvslt", n, p.sLen()), mkNot(mkEq(err.L[0], intConst(0)))))
+		if p.Rg != nil || len(args) < 3 {
+			if p.Rg != nil {
+				for _, k := range compsOf(p.Rg) {
+					ft.havocComp(fr.cur.mem, k)
+					fr.checkLoopMod(k)
+				}
+			} else {
+				all := ft.memGet(fr.cur.mem, u8comp, u8compSortF())
+				na := ft.c.Fresh("readbuf", SArr(SIdx, SBV(8)))
+				fr.cur.mem.m[u8comp] = ft.c.Define("m$"+u8comp, mkStore(all, p.sRef(), na))
+				fr.checkLoopMod(u8comp)
+				fr.frameCheck([]string{u8comp}, p.sRef(), "Read", pos)
+			}
+		} else {
+			off := args[2].L[0]
+			fref := recv.L[0]
+			if isInterface(recv.T) {
+				fref = recv.L[1]
+			}
+			farr := mkSelect(ft.memGet(fr.cur.mem, "FILE", fileCompSort()), fref)
+			all := ft.memGet(fr.cur.mem, u8comp, u8compSortF())
+			old := mkSelect(all, p.sRef())
+			na := ft.c.Fresh("readbuf", SArr(SIdx, SBV(8)))
+			k := ft.c.BoundVar("k")
+			kt := Term{SIdx, k}
+			inr := mkAnd(app(SBool, "bvsle", p.sOff(), kt), app(SBool, "bvslt", kt, app(SIdx, "bvadd", p.sOff(), n)))
+			ft.c.Assume(na, ft.c.Quant(false, k, SIdx, mkEq(mkSelect(na, kt),
+				mkIte(inr, mkSelect(farr, app(SIdx, "bvadd", off, app(SIdx, "bvsub", kt, p.sOff()))), mkSelect(old, kt)))))
+			fr.cur.mem.m[u8comp] = ft.c.Define("m$"+u8comp, mkStore(all, p.sRef(), na))
+			fr.checkLoopMod(u8comp)
+			lo := p.sOff()
+			hi := app(SIdx, "bvadd", lo, p.sLen())
+			fr.frameCheckRange([]string{u8comp}, p.sRef(), &lo, &hi, "ReadAt", pos)
+		}
 		return &Val{T: rt, Tup: []*Val{{T: types.Typ[types.Int], L: []Term{n}}, err}}
 	}
 	intrinsics["(io.ReaderAt).ReadAt"] = readAt
